@@ -40,6 +40,8 @@ def canon(v):
         return ["i", int(v)]
     if isinstance(v, (float, np.floating)):
         return ["f", canon_float(v)]
+    if v is pd.NaT:
+        return ["t", "NaT"]
     if isinstance(v, pd.Timedelta):
         return ["d", str(v)]
     if isinstance(v, (np.datetime64, pd.Timestamp)):
@@ -220,6 +222,31 @@ def tree_files(root):
                 continue
             out.append(os.path.relpath(os.path.join(dp, f), root).replace(os.sep, "/"))
     return sorted(out)
+
+
+def in_int_domain(t):
+    """the model of int(text) covers ASCII digits / white space only (Python also accepts every
+    Unicode decimal digit and space): texts with such non-ASCII characters are outside the model"""
+    return all(ch.isascii() or not (ch.isdigit() or ch.isnumeric() or ch.isspace()) for ch in t)
+
+
+def res_of_model(mo, f):
+    """sres printed by pqref -> ['ok', f(v)] | ['raises', 'ValueError'] | ['raises', 'Error']"""
+    if isinstance(mo, (bytes, bytearray)):
+        return ["raises", bytes(mo).decode()]
+    return ["ok", f(mo[0])]
+
+
+def key_text(v, hive):
+    """text of a non-null key as the writer must put it into the directory name: the key is the
+    column's value (numpy scalars as the Python number of the same value, so a float32 shows the
+    shortest repr of its exact double value); hive uses isoformat for timestamps"""
+    if isinstance(v, np.generic) and not isinstance(v, (np.datetime64, np.timedelta64)):
+        v = v.item()
+    if isinstance(v, (pd.Timestamp, np.datetime64)):
+        v = pd.Timestamp(v)
+        return v.isoformat() if hive else str(v)
+    return str(v)
 
 
 def legal_text(t, drill):
